@@ -925,9 +925,11 @@ def gen_term(rng, profile, bn_ok):
         return ["F"] + list(rng.choice(DBLS))
     if r < 0.92 and bn_ok:
         return ["N", rng.choice(BNS)]
-    if r < 0.95:
+    if r < 0.96:
         return ["S", rng.choice(["a", "b"]), rng.choice(["en", "fr"])]
-    return ["I", rng.choice([1, 2, 3, 10]), rng.choice(["int", "unsignedInt", "short", "unsignedInt"])]
+    # (derived integer datatypes stay in the purely numeric columns: next to strings Literal.__gt__ is not
+    #  transitive — known finding C08-K1, exercised by its witness — and then the answer depends on the sort algorithm)
+    return ["I", rng.choice(INTS)]
 
 
 def gen_case(rng, tier, i):
@@ -1043,6 +1045,8 @@ def gen_query(rng, vars_, names, profiles):
             [["+", ["v", rng.choice(names)], ["c", gen_const(rng)]]]
         for _ in range(rng.choice([0, 1, 1, 2, 2, 3])):
             q["order"].append([rng.choice(pool), rng.random() < 0.4])
+    if q["mod"] and any(a[1] == "AVG" for p in q["proj"] if p[0] == "e" for a in _aggs_in(p[1])):
+        q["mod"] = None  # the lexical form (scale) of an AVG quotient is not modelled: keep it away from row identity
     if rng.random() < 0.35:
         q["limit"] = rng.choice([0, 1, 2, 3, 5])
     if rng.random() < 0.3:
@@ -1097,3 +1101,69 @@ def _m_order_derived(case, result):
 
 
 MATCHERS = {"order_derived_numeric": _m_order_derived}
+
+
+# ------------------------------------------------------------------ regenerated tables (source -> Lean)
+
+
+def TABLES():
+    """lean/RV/C08/Tables.lean from the live rdflib modules: numeric datatypes, super types, promotion map,
+    datatype-URI order (used by Literal.__gt__ across datatypes), evalutils._val ranks, accumulator keys."""
+    from rdflib.plugins.sparql import datatypes as D
+    from rdflib.plugins.sparql.aggregates import Aggregator
+    from rdflib.plugins.sparql.evalutils import _val
+    from rdflib.plugins.sparql.operators import numeric
+    from rdflib.plugins.sparql.sparql import SPARQLError
+    from rdflib.term import _NUMERIC_LITERAL_TYPES
+
+    uris = set(_NUMERIC_LITERAL_TYPES) | set(D._super_types) | set(D._super_types.values()) | set(D._typePromotionMap)
+    for m in D._typePromotionMap.values():
+        uris |= set(m) | set(m.values())
+    uris |= {XSD.boolean, XSD.string}
+    bad = [u for u in uris if not str(u).startswith(XS)]
+    if bad:
+        raise ValueError(f"non-XSD datatype in the tables: {bad}")
+    first = ["integer", "decimal", "float", "double"]
+    names = first + sorted(str(u)[len(XS):] for u in uris if str(u)[len(XS):] not in first)
+    by_uri = sorted(names, key=lambda n: XS + n)
+
+    def acc(n):
+        try:
+            numeric(Literal("1", datatype=URIRef(XS + n)))
+            return True
+        except SPARQLError:
+            return False
+
+    ranks = {"Variable": _val(Variable("v"))[0], "BNode": _val(BNode("b"))[0], "URIRef": _val(URIRef("u:u"))[0],
+             "Literal": _val(Literal("l"))[0]}
+    L = ["/- GENERATED on every run by harness/c08.py TABLES() from rdflib.plugins.sparql.datatypes, rdflib.term,",
+         "   rdflib.plugins.sparql.evalutils, rdflib.plugins.sparql.operators, rdflib.plugins.sparql.aggregates — do not edit. -/",
+         "namespace RV.C08", "",
+         "/-- XSD datatypes that occur in the numeric tables, plus boolean and string -/",
+         "inductive DT", "  " + " ".join("| " + n for n in names), "  deriving DecidableEq, Repr", "",
+         "def DT.all : List DT := [" + ", ".join("." + n for n in names) + "]", "",
+         "def DT.name : DT → String"] + [f'  | .{n} => "{n}"' for n in names] + ["",
+         "def DT.ofName? (s : String) : Option DT := DT.all.find? (fun d => d.name == s)", "",
+         "/-- position of the datatype URI in Python `str` order (Literal.__gt__ orders unlike datatypes by URI) -/",
+         "def DT.uriRank : DT → Nat"] + [f"  | .{n} => {by_uri.index(n)}" for n in names] + ["",
+         "/-- rdflib.term._NUMERIC_LITERAL_TYPES -/", "def DT.isNumericTerm : DT → Bool"] + \
+        [f"  | .{n} => {'true' if URIRef(XS + n) in _NUMERIC_LITERAL_TYPES else 'false'}" for n in names] + ["",
+         "/-- datatypes accepted by rdflib.plugins.sparql.operators.numeric -/", "def DT.isNumericOp : DT → Bool"] + \
+        [f"  | .{n} => {'true' if acc(n) else 'false'}" for n in names] + ["",
+         "/-- datatypes._super_types.get(t, t) -/", "def DT.superType : DT → DT"] + \
+        [f"  | .{n} => .{str(D._super_types.get(URIRef(XS + n), URIRef(XS + n)))[len(XS):]}" for n in names] + ["",
+         "/-- datatypes._typePromotionMap[t1][t2]; none = KeyError -/", "def promoMap : DT → DT → Option DT"]
+    for a in names:
+        for b in names:
+            r = D._typePromotionMap.get(URIRef(XS + a), {}).get(URIRef(XS + b))
+            if r is not None:
+                L.append(f"  | .{a}, .{b} => some .{str(r)[len(XS):]}")
+    L += ["  | _, _ => none", "",
+          "/-- evalutils._val kind ranks -/",
+          f"def rankVariable : Nat := {ranks['Variable']}", f"def rankBNode : Nat := {ranks['BNode']}",
+          f"def rankIRI : Nat := {ranks['URIRef']}", f"def rankLiteral : Nat := {ranks['Literal']}", "",
+          "/-- aggregates.Aggregator.accumulator_classes keys and their classes -/",
+          "def accumulatorClasses : List (String × String) := [" +
+          ", ".join(f'("{k}", "{v.__name__}")' for k, v in Aggregator.accumulator_classes.items()) + "]", "",
+          "end RV.C08", ""]
+    return "\n".join(L)
